@@ -341,6 +341,12 @@ pub fn crypto_pwhash_str_needs_rehash(
     opslimit: u64,
     memlimit: usize,
 ) -> Result<bool, Error> {
+    // libsodium rejects limits that do not fit Argon2's 32-bit parameters
+    // instead of comparing their truncations
+    if opslimit > u32::MAX as u64 || memlimit / 1024 > u32::MAX as usize {
+        return Err(dryoc_error!("opslimit or memlimit out of range"));
+    }
+
     let pwhash = Pwhash::parse_encoded_pwhash(hashed_password)?;
 
     let (t_cost, m_cost) = convert_costs(opslimit, memlimit);
